@@ -50,9 +50,9 @@ theorem two_pow_sub_mul {sf st : Nat} (h : st ≤ sf) : 2 ^ (sf - st) * 2 ^ st =
   rw [← Nat.pow_add, Nat.sub_add_cancel h]
 
 /-- Up-conversion by `2^k`, in the region the code's own comment assumes. -/
-theorem upConv_bytes (k : Nat) (r : Req) (hb : r.burst = BURST_INCR) (hs : r.size + k < 8)
+theorem upAx_bytes (k : Nat) (r : Req) (hb : r.burst = BURST_INCR) (hs : r.size + k < 8)
     (hal : r.addr % numBytes (r.size + k) = 0) (hmul : (r.len + 1) % 2 ^ k = 0) :
-    burstBytes (upConv k r).addr (upConv k r).len (upConv k r).size (upConv k r).burst
+    burstBytes (upAx k r).addr (upAx k r).len (upAx k r).size (upAx k r).burst
       = burstBytes r.addr r.len r.size r.burst := by
   have hal2 : r.addr % numBytes r.size = 0 := by
     have : numBytes r.size ∣ numBytes (r.size + k) := by
@@ -73,7 +73,7 @@ theorem upConv_bytes (k : Nat) (r : Req) (hb : r.burst = BURST_INCR) (hs : r.siz
     have hdiv : r.len / 2 ^ k = q - 1 := by
       rw [this, Nat.mul_add_div hpos, Nat.div_eq_of_lt (by omega)]; simp
     rw [hdiv, hq, Nat.mul_comm]; congr 1; omega
-  simp only [upConv, hb, hsz]
+  simp only [upAx, hb, hsz]
   rw [incr_bytes_aligned _ _ _ hal, incr_bytes_aligned _ _ _ hal2]
   congr 1
   unfold numBytes
@@ -81,9 +81,9 @@ theorem upConv_bytes (k : Nat) (r : Req) (hb : r.burst = BURST_INCR) (hs : r.siz
 
 /-- Down-conversion from `2^sf`-byte to `2^st`-byte words for full-width INCR bursts that still fit the 8-bit
     length: the narrow burst touches exactly the containers of the wide burst, in order. -/
-theorem downConv_bytes (sf st : Nat) (r : Req) (hst : st ≤ sf) (hb : r.burst = BURST_INCR) (hs : r.size = sf)
+theorem downAx_bytes (sf st : Nat) (r : Req) (hst : st ≤ sf) (hb : r.burst = BURST_INCR) (hs : r.size = sf)
     (hfit : (r.len + 1) * 2 ^ (sf - st) ≤ 256) :
-    burstBytes (downConv sf st r).addr (downConv sf st r).len (downConv sf st r).size (downConv sf st r).burst
+    burstBytes (downAx sf st r).addr (downAx sf st r).len (downAx sf st r).size (downAx sf st r).burst
       = List.range' (alignedAddr r.addr sf) ((r.len + 1) * numBytes sf) := by
   have hpos : 0 < (r.len + 1) * 2 ^ (sf - st) := Nat.mul_pos (Nat.succ_pos _) (Nat.two_pow_pos _)
   have hlen : ((r.len + 1) * 2 ^ (sf - st) - 1) % 256 + 1 = (r.len + 1) * 2 ^ (sf - st) := by
@@ -97,7 +97,7 @@ theorem downConv_bytes (sf st : Nat) (r : Req) (hst : st ≤ sf) (hb : r.burst =
   have hal : (r.addr / 2 ^ sf * 2 ^ sf) % numBytes st = 0 := by
     apply Nat.mod_eq_zero_of_dvd
     exact Nat.dvd_trans (Nat.pow_dvd_pow 2 hst) (Nat.dvd_mul_left _ _)
-  simp only [downConv, hsize, hburst]
+  simp only [downAx, hsize, hburst]
   rw [incr_bytes_aligned _ _ _ hal, hlen]
   unfold alignedAddr numBytes
   rw [Nat.mul_assoc, two_pow_sub_mul hst]
